@@ -121,7 +121,8 @@ class World:
         self.v6_of: dict[int, tuple] = {}
         from ipv8.messaging.anonymization import exit_socket as es_mod
         from ipv8.messaging.anonymization.community import TunnelCommunity, TunnelSettings
-        from ipv8.messaging.anonymization.tunnel import PEER_FLAG_EXIT_BT, PEER_FLAG_RELAY, PEER_FLAG_SPEED_TEST
+        from ipv8.messaging.anonymization.tunnel import (PEER_FLAG_EXIT_BT, PEER_FLAG_EXIT_IPV8, PEER_FLAG_RELAY,
+                                                         PEER_FLAG_SPEED_TEST)
         from ipv8.test.mocking import endpoint as mep
         from ipv8.test.mocking.ipv8 import MockIPv8
 
@@ -177,7 +178,8 @@ class World:
 
         self.nodes = [None]
         self.node_of = {}
-        flags = {PEER_FLAG_RELAY, PEER_FLAG_SPEED_TEST, PEER_FLAG_EXIT_BT}
+        # every node is willing to exit BT and IPv8 traffic (so circuits match TunnelEndpoint's exit_flags filter)
+        flags = {PEER_FLAG_RELAY, PEER_FLAG_SPEED_TEST, PEER_FLAG_EXIT_BT, PEER_FLAG_EXIT_IPV8}
         for i in range(1, n + 2):
             s = SettingsCls()
             s.min_circuits = 0
@@ -517,6 +519,10 @@ class History:
             d["intro"] = self.intro
         if getattr(self, "closing", None):
             d["closing"] = self.closing
+        if getattr(self, "half", None):
+            d["half"] = self.half
+        if getattr(self, "epsend", None):
+            d["epsend"] = self.epsend
         if getattr(self, "rdv", None):
             d["rdv"] = self.rdv
         if getattr(self, "dual", None):
@@ -1094,6 +1100,9 @@ class History:
                     if table[cid].hop.keys is not None:     # a CREATED may still be in flight: that circuit is dead
                         self.cut_keys.add(table[cid].hop.keys.key_forward)
                     w.call(o.remove_exit_socket, cid, "harness", destroy=1)
+                elif rng.random() < 0.4:
+                    self.act_remove_half(i, cid, rng.random() < 0.5)
+                    return
                 else:
                     if table[cid].hop.keys is not None:
                         self.cut_keys.add(table[cid].hop.keys.key_forward)
@@ -1103,6 +1112,142 @@ class History:
                 self.refresh_bk()
                 self.record(f"rm{kind} {i} {cid}", i, "legit-remove-" + kind, True, ("rm", kind))
                 return
+
+    def act_remove_half(self, i: int, cid: int, destroy: bool):
+        """do_remove's sweep drops the two directions of a relay route independently (idle for max_time_inactive ->
+        remove_relay(id, "no activity"); over max_traffic -> destroy=True): one direction goes, the other stays behind."""
+        w = self.w
+        o = w.ov(i)
+        r = o.relay_from_to.get(cid)
+        if r is None:
+            return
+        for c in (cid, r.circuit_id):                       # that circuit is dead in one direction
+            e = o.relay_from_to.get(c)
+            if e is not None and e.hop.keys is not None:
+                self.cut_keys.add(e.hop.keys.key_forward)
+        self.may_pop.add((i, "R", id(r)))
+        w.begin()
+        w.call(o.remove_relay, cid, "harness: one direction (do_remove)", destroy=1 if destroy else False)
+        self.refresh_bk()
+        self.ctx.count(f"half_closed_relay:destroy={int(destroy)}")
+        self.record(f"rmH {i} {cid} {int(destroy)}", i, "legit-remove-one-relay-direction", True, ("rmH", int(destroy)))
+
+    def act_endpoint_send(self, o: int | None = None):
+        """An anonymized overlay at node o sends a packet through its TunnelEndpoint (the entry point applications use):
+        it may enter only a circuit of the configured length that is READY - the exit of a circuit that is still being
+        extended does not exist yet, its last built hop (which still holds an exit socket for the id) would let it out."""
+        from ipv8.messaging.anonymization.endpoint import TunnelEndpoint
+        from ipv8.messaging.anonymization.tunnel import PEER_FLAG_EXIT_IPV8
+        w, rng = self.w, self.rng
+        cands = []
+        for i in ([o] if o is not None else range(1, w.n + 1)):
+            for hops in (1, 2, 3):
+                cs = w.ov(i).find_circuits(exit_flags=[PEER_FLAG_EXIT_IPV8], hops=hops, state=None)
+                if cs:                                   # otherwise the endpoint would start a circuit of its own
+                    cands.append((i, hops, cs))
+        if not cands:
+            return
+        unfinished = [x for x in cands if any(c.state == "EXTENDING" for c in x[2])]
+        o, hops, cs = rng.choice(unfinished if unfinished and rng.random() < 0.7 else cands)
+        exp = next((c for c in cs if c.state == "READY"), None)
+        ready = {k for k, _ in self.ready_circuits()}
+        if exp is not None and (o, exp.circuit_id) not in ready:
+            return                                       # re-plumbed by its owner / already cut: not a well-formed circuit
+        self.seq += 1
+        named = exp if exp is not None else cs[0]
+        dest = ("10.0.2.%d" % (1 + self.seq % 200), 2600 + self.seq % 100)
+        packet = mk_tag("F", o, named.circuit_id, self.seq)
+        te = TunnelEndpoint(w.nodes[o].endpoint)
+        te.set_tunnel_community(w.ov(o), hops=hops)
+        te.set_anonymity(packet[:22], True)
+        w.begin()
+        te.send(dest, packet)
+        sent = [w.header(p) for p in w.step_sends]
+        w.drain()
+        states = sorted(c.state for c in cs)
+        self.ctx.count("endpoint_send:" + ("ready" if exp is not None else "no-ready-circuit:" + "+".join(sorted(set(states)))))
+        if exp is None and sent:
+            self.fail("TunnelEndpoint.send:data-entered-circuit-that-is-not-ready",
+                      f"node {o}: TunnelEndpoint(hops={hops}).send put an anonymized packet into circuit {sent[0][2]} although "
+                      f"no circuit of that length is READY (states {states}): the last hop built so far lets it out",
+                      {"node": o})
+        elif exp is not None and (len(sent) != 1 or sent[0][2] != exp.circuit_id):
+            self.fail("TunnelEndpoint.send:not-the-first-ready-circuit",
+                      f"node {o}: TunnelEndpoint(hops={hops}).send used {[x[2] for x in sent]} where the first READY circuit "
+                      f"{exp.circuit_id} was expected", {"node": o})
+        self.record(f"ts {o} {hops} {w.aidx(dest)} {tag_num('F', o, named.circuit_id, self.seq)}", o, "endpoint-send", True,
+                    ("ts", hops, exp is not None))
+
+    def run_half_relay(self, side: int, destroy: bool, delay: float):
+        """A two hop circuit whose relay lost one direction of its route (do_remove); then every kind of destroy naming the
+        remaining direction's id arrives - nobody is adjacent to it any more - and data is still sent both ways."""
+        _random.seed(self.sc_seed ^ 0x5DEECE66D)
+        self.w = World(4, self.rng, delay)
+        w = self.w
+        try:
+            self.lines.append("reset 4" + (" defer" if delay else ""))
+            self.expect.append({"sends": [], "tables": None, "log": [], "step": -1, "kind": "reset"})
+            key = self.act_open((1, 2, 3))
+            if key is None:
+                return
+            self.flush()
+            self.act_send_data()
+            self.flush()
+            rel = next((i for i in range(1, w.n + 1) if w.ov(i).relay_from_to), None)
+            if rel is None:
+                return
+            ids = sorted(w.ov(rel).relay_from_to, key=lambda c: w.ov(rel).relay_from_to[c].direction)
+            cid, rest = ids[side], ids[1 - side]
+            self.act_remove_half(rel, cid, destroy)
+            if delay:
+                self.act_advance(6)
+            self.ctx.count("half_closed_relay:present" if (rest in w.ov(rel).relay_from_to
+                                                           and cid not in w.ov(rel).relay_from_to) else "half_closed_relay:absent")
+            for mode in ("outsider", "other-node", "wrong-side", "adjacent-badsig", "adjacent"):
+                for target in (rest, cid):
+                    if self.failed:
+                        break
+                    self.force = {"kind": "destroy", "target": (rel, target), "src": w.addr(w.n + 1), "mode": mode}
+                    self.act_forge()
+            self.force = {}
+            if not self.failed:
+                self.flush()
+                self.act_send_data()
+                self.flush()
+                self.act_reply()
+                self.flush()
+                self.act_advance(6)
+                self.final_probe()
+            self.ctx.count(f"half_closed_relay:histories:delay={delay}")
+        finally:
+            w.close()
+
+    def run_endpoint_send(self, hops: int, built: int):
+        """An anonymized overlay sends through the TunnelEndpoint while its only circuit of the wanted length has `built`
+        of `hops` hops, and again when it is complete."""
+        _random.seed(self.sc_seed ^ 0x5DEECE66D)
+        self.w = World(5, self.rng, 0)
+        w = self.w
+        try:
+            self.lines.append("reset 5")
+            self.expect.append({"sends": [], "tables": None, "log": [], "step": -1, "kind": "reset"})
+            key = self.act_open((1, hops, 3))
+            if key is None:
+                return
+            c = w.ov(1).circuits[key[1]]
+            n = 0
+            while w.flight and len(c.hops) < built and n < 200 and not self.failed:
+                self.act_deliver(0)
+                n += 1
+            self.ctx.count(f"endpoint_send:scripted:built={len(c.hops)}/{hops}")
+            self.act_endpoint_send(1)
+            self.flush()
+            if not self.failed:
+                self.act_endpoint_send(1)
+                self.flush()
+                self.final_probe()
+        finally:
+            w.close()
 
     def timers_state(self, i: int):
         o = self.w.ov(i)
@@ -2237,8 +2382,10 @@ class History:
                     self.act_reply_stale()
                 elif r < 0.88:
                     self.act_reply_nested()
-                elif r < 0.90:
+                elif r < 0.89:
                     self.act_send_unfinished()
+                elif r < 0.90:
+                    self.act_endpoint_send()
                 elif r < 0.93:
                     self.act_adversarial_extend()
                 elif r < 0.97 and self.w.gated:
@@ -2469,6 +2616,18 @@ def run_reuses(ctx: Ctx, use_model: bool):
         h.run_closing_hopless(delay, wait)
         if use_model and not h.failed:
             compare(ctx, h, ctx.driver().batch(h.lines))
+    for side, destroy, delay in ((0, False, 0), (1, False, 0), (0, True, 0), (1, True, 5), (0, False, 5)):
+        h = History(ctx, ctx.rng.getrandbits(48))
+        h.half = {"side": side, "destroy": destroy, "delay": delay}
+        h.run_half_relay(side, destroy, delay)
+        if use_model and not h.failed:
+            compare(ctx, h, ctx.driver().batch(h.lines))
+    for hops, built in ((2, 1), (3, 1), (3, 2), (2, 0), (1, 1)):
+        h = History(ctx, ctx.rng.getrandbits(48))
+        h.epsend = {"hops": hops, "built": built}
+        h.run_endpoint_send(hops, built)
+        if use_model and not h.failed:
+            compare(ctx, h, ctx.driver().batch(h.lines))
     h = History(ctx, ctx.rng.getrandbits(48))
     h.dual = True
     h.run_dualstack()
@@ -2524,6 +2683,12 @@ def replay(ctx: Ctx, rec: dict):
     if r.get("rdv"):
         h.rdv = r["rdv"]
         h.run_rendezvous(**r["rdv"])
+    elif r.get("half"):
+        h.half = r["half"]
+        h.run_half_relay(**r["half"])
+    elif r.get("epsend"):
+        h.epsend = r["epsend"]
+        h.run_endpoint_send(**r["epsend"])
     elif r.get("closing"):
         h.closing = r["closing"]
         h.run_closing_hopless(**r["closing"])
